@@ -71,8 +71,13 @@ func (srv *Server) Characteristics(w http.ResponseWriter, r *http.Request) {
 				aid := to.Uint64(ids[0]) // accessory id
 				iid := to.Uint64(ids[1]) // instance id (= characteristic id)
 				resp := CharacteristicResponse{AccessoryID: aid, CharacteristicID: iid}
-				if ch := srv.getCharacteristic(aid, iid); ch != nil {
+				if ch := srv.getCharacteristic(aid, iid); ch != nil && ch.IsReadable() {
 					resp.Value = ch.GetValueFromConnection(conn)
+				} else if ch != nil {
+					// nothing to read from a characteristic without read permission
+					err = true
+					status := hap.StatusWriteOnlyCharacteristic
+					resp.Status = &status
 				} else {
 					err = true
 					status := hap.StatusServiceCommunicationFailure
